@@ -149,8 +149,12 @@ class Renderer:
         if o == 'alt':
             for _ in range(10):
                 d, s = rng.choice(ds), rng.choice(ss)
-                if rng.random() < 0.3 and d in ss and not any(m in everything for m in self.sparam_texts):
+                has_sparam = any(m in everything for m in self.sparam_texts)
+                if rng.random() < 0.3 and d in ss and not has_sparam:
                     s = d
+                if has_sparam and s == d:
+                    # a string argument may be empty: with identical delimiter and separator the list would end early
+                    continue
                 j = s.join(args)
                 if (j + s + d).find(s + d) == len(j):
                     self.count('delim:alt-multi' + ('-same' if s == d else '') + ('-space' if s == ' ' else ''))
